@@ -45,6 +45,15 @@ func genM3Idents(r *mon.Rand, n int) []m3Ident {
 	if r.Chance(1, 3) {
 		names[0] = "" // the empty metric name is a name like any other
 	}
+	if r.Chance(1, 3) {
+		// a name of exactly a power-of-two length (codec scratch buffers)
+		k := r.Intn(len(names))
+		want := []int{63, 64, 65, 128}[r.Intn(4)]
+		for len(names[k]) < want {
+			names[k] += "p"
+		}
+		names[k] = names[k][:want]
+	}
 	tagsets := make([]map[string]string, 1+n/2)
 	for i := range tagsets {
 		tagsets[i] = genM3Tags(r)
